@@ -254,7 +254,7 @@ FIXED = [
 
 def plan(tier, seed, scale):
     K = 16
-    total = int((4000 if tier == "quick" else 200000) * scale)
+    total = int((4000 if tier == "quick" else 50000) * scale)
     tasks = [{"name": "fixed", "kind": "fixed"}]
     for i in range(K):
         tasks.append({"name": "rand-%d" % i, "kind": "rand", "n": max(total // K, 5), "shard": i,
